@@ -16,7 +16,13 @@ from vf import core, linalg
 
 ID = "C03"
 LEV = {"f": ["a", "b"], "g": ["s", "t", "u"], "h": ["p", "q"], "j": ["m", "n"], "k": [1, 2, 3], "m": ["v", "w"]}
+LEVSETS = [dict(LEV), {"f": ["a", "b", "c"], "g": ["s", "t"], "h": ["p", "q", "r"], "j": ["m", "n"], "k": [1, 2], "m": ["v", "w"]}]
 NUM = ["x", "z"]
+
+
+def use_levels(i):
+    LEV.clear()
+    LEV.update(LEVSETS[i])
 
 
 def frame(cats, nums, seed, reps=None):
@@ -139,6 +145,7 @@ def families(tier):
     for text, terms in OPERATOR_FORMS:
         extra.append((("@" + text,) + tuple(terms), True))
         extra.append((("@" + text,) + tuple(terms), False))
+    extra += [(coded(fam), ic) for i, (fam, ic) in enumerate(out) if i % (40 if tier == "quick" else 4) == 0 and any(v in CODED for t in fam for v in t.split(":"))]
     if tier == "quick":
         return out, extra
     # thorough: every factor order inside each term for families of <= 2 terms + all families of main effects and 2-way interactions over four two-level factors
@@ -175,6 +182,14 @@ def split_fam(fam):
     if fam and fam[0].startswith("@"):
         return fam[0][1:], list(fam[1:])
     return " + ".join(fam), list(fam)
+
+
+CODED = {"f": "C(f)", "g": "S(g)", "h": "T(h, 'q')"}
+
+
+def coded(fam):
+    """the same family with every categorical written as a coded atom"""
+    return tuple(":".join(CODED.get(a, a) for a in t.split(":")) for t in fam)
 
 
 def formula_of(fam, intercept):
@@ -228,10 +243,11 @@ def check_formula(fam, intercept, seed):
     return {"outcome": "violation", "what": "rank deficient" if "rank" in kinds else "does not span the model space", "formula": formula, "detail": results[0][1]}
 
 
-def replay(formula, seed, what):
+def replay(formula, seed, what, levset=0):
     """plain numpy / exact-fraction re-evaluation of a violation (no z3)"""
     from formulae import design_matrices
 
+    use_levels(levset)
     m = re.match(r"y ~ (0 \+ )?(.*)$", formula)
     intercept = m.group(1) is None
     ops = dict(OPERATOR_FORMS)
@@ -262,10 +278,12 @@ def _work(job):
     core.setup_paths()
     core.silence_logging()
     out = []
+    use_levels(job.get("levset", 0))
     for fam, ic in job["items"]:
         r = check_formula(fam, ic, job["seed"])
+        r["levset"] = job.get("levset", 0)
         if r["outcome"] == "violation":
-            rep, detail = replay(r["formula"], job["seed"], r["what"])
+            rep, detail = replay(r["formula"], job["seed"], r["what"], job.get("levset", 0))
             r["reproduced"], r["replay_detail"] = rep, detail
         out.append(r)
     return {"results": out, "queries": linalg.STATS.queries, "solver_s": linalg.STATS.solver_s, "cross": dict(linalg.STATS.cross)}
@@ -289,7 +307,13 @@ def run(tier, seed):
     rep.rule = "one case = one formula; non-trivial = the design was built and both linear-algebra obligations were decided"
     items = base + extra
     chunks = [items[i::128] for i in range(128)]
-    results = core.pmap(_work, [{"items": ch, "seed": seed} for ch in chunks if ch])
+    jobs = [{"items": ch, "seed": seed} for ch in chunks if ch]
+    if tier != "quick":
+        # second assignment of level counts (f: 3, g: 2, h: 3) for a third of the base family
+        alt = [it for i, it in enumerate(base) if i % 3 == 0]
+        jobs += [{"items": alt[i::64], "seed": seed, "levset": 1} for i in range(64) if alt[i::64]]
+        rep.bounds["level counts"] = "f:2 g:3 h:2 for everything; f:3 g:2 h:3 for every third formula of the base family"
+    results = core.pmap(_work, jobs)
     nq, ss = 0, 0.0
     cross = {"solver": "/usr/bin/z3 4.8.12", "checked": 0, "agree": 0, "disagree": 0, "unknown": 0}
     for r in results:
@@ -305,7 +329,7 @@ def run(tier, seed):
             elif x["outcome"] == "unknown":
                 rep.inconclusive.append(f"solver unknown on {x['formula']}")
             else:
-                sig = {"formula": x["formula"], "what": x["what"]}
+                sig = {"formula": x["formula"], "what": x["what"], "levset": x.get("levset", 0)}
                 if "exc" in x:
                     sig["exc"], sig["site"] = x["exc"], x["site"]
                 rep.violations.append({"label": x["what"], "signature": sig, "replay": {"formula": x["formula"], "seed": seed, "detail": x["detail"]}, "reproduced": x["reproduced"], "detail": x["replay_detail"]})
@@ -319,4 +343,4 @@ def run(tier, seed):
 
 
 def replay_file(v):
-    return replay(v["replay"]["formula"], v["replay"].get("seed", 0), v["signature"]["what"])
+    return replay(v["replay"]["formula"], v["replay"].get("seed", 0), v["signature"]["what"], v["signature"].get("levset", 0))
